@@ -679,6 +679,33 @@ func TestVerifC15(t *testing.T) {
 	})
 }
 
+// wireDiffsOnRewritingPeers: every difference is in the wire view of a peer gobgp rewrites attributes for.
+func (c *c15Case) wireDiffsOnRewritingPeers(ds []c15Diff) bool {
+	for _, d := range ds {
+		i := c.peerIdx(strings.TrimPrefix(d.View, "wire@"))
+		if i < 0 || c.isRS(i) {
+			return false
+		}
+	}
+	return true
+}
+
+// exportTestsASPath: the global export assignment of P2 holds a condition on AS_PATH.
+func (c *c15Case) exportTestsASPath() bool {
+	a := c.p2.asg(c15Global, c15Export)
+	if a == nil {
+		return false
+	}
+	for _, ref := range a.Policies {
+		for _, st := range c.p2.pol(ref.Name).Statements {
+			if cd := st.Conditions; cd != nil && (cd.AsPathSet != nil || cd.AsPathLength != nil) {
+				return true
+			}
+		}
+	}
+	return false
+}
+
 func (c *c15Case) witness() map[string]any {
 	var peers, routes, chg []string
 	for _, p := range c.peers {
@@ -872,6 +899,12 @@ func c15Pair(t *testing.T, rec *vlib.Rec, idx int) {
 				}
 				key = "c15:change-not-effective:" + strings.Join(ks, "+") + ":" + dname
 				what = fmt.Sprintf("the %s policy gobgp evaluates after the change is not the new policy: the freshly evaluated %s (ListPath, independent of any reset) differs from a server configured with the new policy from the start, everything upstream of it being equal: ", dname, view)
+			}
+			if view == "wire" && c.reset.Kind != "route-refresh" && c.wireDiffsOnRewritingPeers(hd) && c.exportTestsASPath() {
+				// Narrowing for a known class: towards ordinary (non route-server) peers gobgp decides whether
+				// an old best path needs an explicit withdraw by running the export policy on the path as
+				// stored, not as advertised (own AS prepended); only AS_PATH conditions can tell the two apart.
+				key += ":export-tests-as-path"
 			}
 			w := c.witness()
 			w["readback_after_change_runA"] = a.readback
